@@ -21,7 +21,7 @@ import z3
 from vf.common import Plan, Obligation, Outcome, DISCHARGED, REFUTED, FAULT
 from vf.pyvc.engine import T, Int, SeqT, ListT, TupleT, RecT, Rec, SeqV, PyList, FuncRef
 from vf.pyvc.contract import FnContract, Case, LoopSpec, obligations_for
-from vf.pyvc.ext import XWorld, XInterp, Enum, EnumV, OpV
+from vf.pyvc.ext import XWorld, XInterp, Enum, EnumV, OpV, with_standin
 from vf.pyvc.spec import And, Or, Not, Implies
 from vf.symx.scalar import poly_matrix, pm_matmul, pm_dagger, pm_kron, pm_eye
 from refs import gates as G
@@ -424,7 +424,8 @@ def build(tier, seed):
             k = z3.Int("k_el")
             return z3.ForAll([k], z3.Implies(z3.And(0 <= k, k < TI.LEN(v.term)), z3.And(TI.AT(v.term, k) >= 0, TI.AT(v.term, k) <= 4)),
                              patterns=[TI.AT(v.term, k)])
-        OPS = SeqT(ELEM, ax=True, where=all_kinds)
+        OPS = T("build", lambda ctx, nm, ELEM=ELEM: SeqV(z3.Const(ctx.fresh_name(nm), TI.sort), ELEM, False), where=all_kinds,
+                gen=lambda rng: [rng.randint(0, 4) for _ in range(rng.choice([0, 1, 1, 2, 3, 4, 6]))])
 
         def every(s, pred, upto=None):
             if isinstance(s, SeqV):
@@ -515,7 +516,7 @@ def build(tier, seed):
     for fc in contracts:
         for case in fc.cases:
             case.interp_cls = XInterp
-        for ob in obligations_for("C74", fc, tier):
-            plan.add(ob)
+        for ob, case in zip(obligations_for("C74", fc, tier), fc.cases):
+            plan.add(with_standin(ob, fc, case))
         plan.fn_under_contract(PT_FILE, fc.qualname)
     return plan
